@@ -1176,3 +1176,66 @@ def rf127(run):
                           'are stored below sp, where the basic-block wrapper of lazy bb generation (and any signal handler) writes; the '
                           'epilogue restores garbage into the caller\'s registers' % (F.src(e)[:70], bad[1], bad[0]), line=x['l'])
     return n
+
+
+# ---------------------------------------------------------------------------------------------
+# RF133: a one-class block goes to registers exactly when all of it fits
+# ---------------------------------------------------------------------------------------------
+
+def rf133(run):
+    from lib import printexec as PE
+    rule = 'RF133'
+    run.rule(rule, 'x86-64 machinize_call (caller side) and target_machinize (callee prologue): the test "this BLK+1 / BLK+2 block is passed '
+                   'wholly in registers" is evaluated abstractly for every number of argument registers already used (0…7 integer, 0…9 SSE) '
+                   'and block sizes 8 and 16, with helper functions of the unit executed: it holds exactly when used + eightbytes <= 6 '
+                   '(integer) resp. 8 (SSE), the psABI rule that native callers, va_start and the FFI trampoline follow')
+    gen = run.tu('gen')
+    tv = dict(gen.enum('MIR_type_t'))
+    n = 0
+    for fn, szvar in (('machinize_call', 'size'), ('target_machinize', 'blk_size')):
+        f = gen.func(fn)
+        run.functions_analysed.add(('gen', fn))
+        ifs = [x for x in f.walk() if x['k'] == 'IfStmt' and 'MIR_T_BLK + 1' in F.src(x['c'][0]) and 'MIR_T_BLK + 2' in F.src(x['c'][0])]
+        if not ifs:
+            raise F.AnalysisBroken('%s: the all-in-registers test for one-class blocks was not found' % fn)
+        cond = ifs[0]['c'][0]
+        # the "no register" value the code compares with
+        nonvar = None
+        for g in (f,) + tuple(gen.funcs[c] for c in gen.callgraph().get(fn, ()) if c in gen.funcs and gen.funcs[c].body is not None):
+            for y in g.walk():
+                if y['k'] == 'BinaryOperator' and y['op'] in ('!=', '==') and 'MIR_NON_VAR' not in '' and nonvar is None:
+                    v = F.const_value(F.strip(y['c'][1]))
+                    if v is not None and v > 1000 and 'arg_reg' in F.src(y['c'][0]):
+                        nonvar = v
+        if nonvar is None:
+            nonvar = 0xffffffff
+        first = None
+        for cls, used_var, limit in ((1, 'int_arg_num', 6), (2, 'fp_arg_num', 8)):
+            for used in range(0, limit + 2):
+                for size in (8, 16):
+                    acc = {'get_int_arg_reg': lambda a, e, x: (100 + x.val(a[0], e)) if x.val(a[0], e) < 6 else nonvar,
+                           'get_fp_arg_reg': lambda a, e, x: (200 + x.val(a[0], e)) if x.val(a[0], e) < 8 else nonvar}
+                    ex = PE.PrintExec(gen, {}, acc, {})
+                    env = {'type': tv['MIR_T_BLK'] + cls, 'int_arg_num': 0, 'fp_arg_num': 0, szvar: size}
+                    env[used_var] = used
+                    try:
+                        v = ex.val(cond, env)
+                    except F.AnalysisBroken as e_:
+                        raise F.AnalysisBroken('%s: register test not evaluable: %s' % (fn, e_))
+                    if v is None:
+                        raise F.AnalysisBroken('%s: register test not evaluable for class %d, %d used' % (fn, cls, used))
+                    want = used + size // 8 <= limit
+                    ok = bool(v) == want
+                    n += 1
+                    run.ob(rule, (fn, cls, used, size), ok, {'function': fn, 'class': 'BLK+%d' % cls, 'registers used': used, 'size': size,
+                                                             'in registers': bool(v), 'psABI': want} if n % 16 == 1 or not ok else None)
+                    if not ok and first is None:
+                        first = (cls, used, size, bool(v), want)
+        if first:
+            cls, used, size, got, want = first
+            run.violation(rule, f, 'BLK+%d of %d bytes with %d registers used' % (cls, size, used), '%s decides that a BLK+%d block of %d bytes is %s '
+                          'with %d %s argument registers already used; every other party (native callers, va_start, the FFI trampoline, the '
+                          'interpreter shim) passes it %s: a native caller of a generated function sees other bytes in the block' %
+                          (fn, cls, size, 'in registers' if got else 'on the stack', used, 'integer' if cls == 1 else 'SSE',
+                           'in registers' if want else 'on the stack'), line=ifs[0]['l'])
+    return n
